@@ -49,7 +49,7 @@ def renumber_surfaces(volus, renumbering):
     volus = volus.copy()
 
     with Progress('renumbering surfaces in cell',
-                  len(volus), max(volus)) as progress:
+                  len(volus), max(volus, default=0)) as progress:
         for i, (key, volu) in enumerate(volus.items()):
             progress.update(i, key)
             new_pluses = set(renumbering[s] for s in volu.pluses)
